@@ -113,10 +113,18 @@ class C06(common.Spec):
                 def start(self):
                     super().start()
                     raise RuntimeError('start failed')
+            class BadTask(edzed.AddonMainTask, edzed.SBlock):
+                def init_regular(self):
+                    self.set_output(0)
+
+                async def _maintask(self):
+                    raise RuntimeError('task failed at once')
             dest = Dest('dest')
             blocks = [make_block(b, dest) for b in case['blocks']]
-            if case['failed_start']:
+            if case['failed_start'] == 'start':
                 BadStart('zz_bad')
+            elif case['failed_start'] == 'task':
+                BadTask('zz_bad')
             obs['init'] = self._snap(case, storage)
             task = asyncio.create_task(circuit.run_forever())
             try:
@@ -395,8 +403,16 @@ def gen_case(rng):
         extra['edzed-stop-time'] = float(EPOCH - 100)
     restarts = [[rng.randrange(0, 12), rng.choice([0, 1_000_000, 5_000_000, 100_000_000, 2_000_000_000])]
                 for _ in range(rng.randrange(1, 4))]
+    failed = rng.choice(['start', 'task']) if rng.random() < 0.12 else False
+    if failed:
+        # saved states of a previous run are in the storage: a failed start must not touch them
+        for b in blocks:
+            if b['kind'] == 'input' and b['persistent']:
+                extra[key_of(b)] = 42
+            if b['kind'] == 'counter' and b['persistent']:
+                extra[key_of(b)] = 3
     return dict(blocks=blocks, events=events, initial_extra=extra, restarts=restarts,
-                failed_start=rng.random() < 0.08)
+                failed_start=failed)
 
 
 def check(run):
